@@ -483,4 +483,53 @@ def run (cfg : Config) : State → List Env → List (Result × List Event)
 
 def results (cfg : Config) (st : State) (bs : List Env) : List Result := (run cfg st bs).map (·.1)
 
+/-! ### several generators in one process
+
+Every `Filenames` object owns its namespace (`self.variables = variables or {}`: a fresh dict when the
+caller gives none), its taken set (`invalid or {}`) and its generator.  A process is a list of objects;
+the caller creates objects, binds variables on one of them (`obj.variables[k] = v`) and calls one of them,
+in any interleaving. -/
+
+/-- one `Filenames` object: its configuration and generator state -/
+structure Gen where
+  cfg : Config
+  st : State
+
+inductive WOp where
+  | new (g : Gen)               -- `Filenames(spec, charsub, variables, extension, invalid)`
+  | bind (i : Nat) (b : Env)    -- `objs[i].variables.update(b)`
+  | call (i : Nat)              -- `objs[i]()`
+
+def modifyAt {α : Type} (f : α → α) : Nat → List α → List α
+  | _, [] => []
+  | 0, x :: xs => f x :: xs
+  | i + 1, x :: xs => x :: modifyAt f i xs
+
+def Gen.bind (g : Gen) (b : Env) : Gen := { g with st := { g.st with vars := envUpdate g.st.vars b } }
+
+def Gen.call (g : Gen) : Gen × Result :=
+  ({ g with st := (request g.cfg g.st []).1 }, (request g.cfg g.st []).2.1)
+
+/-- one step of the process; a call reports (object index, result) -/
+def stepW (w : List Gen) : WOp → List Gen × Option (Nat × Result)
+  | .new g => (w ++ [g], none)
+  | .bind i b => (modifyAt (·.bind b) i w, none)
+  | .call i =>
+    match w[i]? with
+    | none => (w, none)
+    | some g => (modifyAt (fun x => x.call.1) i w, some (i, g.call.2))
+
+def runW : List Gen → List WOp → List (Nat × Result)
+  | _, [] => []
+  | w, op :: ops =>
+    match stepW w op with
+    | (w', none) => runW w' ops
+    | (w', some r) => r :: runW w' ops
+
+/-- one object alone: `some b` = bind, `none` = call -/
+def runG : Gen → List (Option Env) → List Result
+  | _, [] => []
+  | g, some b :: r => runG (g.bind b) r
+  | g, none :: r => g.call.2 :: runG g.call.1 r
+
 end PlasVerif.Model.Filenames
